@@ -474,6 +474,57 @@ pub fn run(args: &Args) -> Report {
     }
     rep.count("storm_hand_offs", hops_total);
 
+    // ---- 4b. two clones dropped at the same moment from two threads: the buffer
+    // must be released exactly once (allocator ledger: neither leaked nor freed twice)
+    if al::ENABLED {
+        let lockstep = |rounds: usize, rng: &mut Rng| {
+            for round in 0..rounds {
+                let len = *rng.pick(&[0usize, 1, 64, 5000]);
+                let data = pattern(rng.next(), len);
+                let a = if round % 2 == 0 {
+                    SharedBytes::from_slice(&data)
+                } else {
+                    let mut v = Vec::with_capacity(len + 3);
+                    v.extend_from_slice(&data);
+                    SharedBytes::from_vec(v)
+                };
+                let b = a.clone();
+                let c = a.clone();
+                let go = std::sync::atomic::AtomicBool::new(false);
+                std::thread::scope(|sc| {
+                    for x in [a, b, c] {
+                        let go = &go;
+                        sc.spawn(move || {
+                            while !go.load(std::sync::atomic::Ordering::SeqCst) {
+                                std::hint::spin_loop();
+                            }
+                            drop(x);
+                        });
+                    }
+                    go.store(true, std::sync::atomic::Ordering::SeqCst);
+                });
+            }
+        };
+        // warm up whatever the runtime allocates lazily, then bracket
+        lockstep(20, &mut rng);
+        let b0 = al::snapshot();
+        let rounds = args.n(3_000, 40_000);
+        lockstep(rounds, &mut rng);
+        let b1 = al::snapshot();
+        rep.eval();
+        rep.count("lockstep_concurrent_drop_rounds", rounds as u64);
+        if b1.blocks != b0.blocks || b1.bytes != b0.bytes || b1.mismatches != b0.mismatches {
+            rep.violation(
+                "concurrent-drop-release",
+                "C16/not-released-exactly-once-under-concurrent-drops",
+                json!({"blocks_delta": b1.blocks - b0.blocks, "bytes_delta": b1.bytes - b0.bytes,
+                       "layout_mismatches": b1.mismatches - b0.mismatches, "rounds": rounds}),
+                json!({"kind": "three clones dropped simultaneously by three threads", "rounds": rounds}),
+            );
+        }
+        rep.nontrivial(mix(0x10c5, rounds as u64));
+    }
+
     // ---- 5. allocator ledger
     let after = al::snapshot();
     rep.extra.insert("alloc_ledger_enabled".into(), json!(al::ENABLED));
